@@ -612,6 +612,8 @@ def cpl(c, F, G = None, h = None, dims = None, A = None, b = None,
         sum(dims['s']), 1))
     lmbdasq0 = matrix(0.0, (mnl + dims['l'] + sum(dims['q']) + 
         sum(dims['s']), 1))
+    sigs0 = matrix(0.0, (sum(dims['s']), 1))
+    sigz0 = matrix(0.0, (sum(dims['s']), 1))
     
 
     if show_progress: 
@@ -1231,6 +1233,8 @@ def cpl(c, F, G = None, h = None, dims = None, A = None, b = None,
                             blas.copy(dz2, dz20)
                             blas.copy(lmbda, lmbda0)
                             blas.copy(lmbdasq, lmbdasq0)
+                            blas.copy(sigs, sigs0)
+                            blas.copy(sigz, sigz0)
                             dsdz0 = dsdz
                             sigma0, eta0 = sigma, eta
                             xcopy(rx, rx0);  ycopy(ry, ry0)
@@ -1279,6 +1283,8 @@ def cpl(c, F, G = None, h = None, dims = None, A = None, b = None,
                             blas.copy(ds20, ds2)
                             blas.copy(dz20, dz2)
                             blas.copy(lmbda0, lmbda)
+                            blas.copy(sigs0, sigs)
+                            blas.copy(sigz0, sigz)
                             dsdz = dsdz0
                             sigma, eta = sigma0, eta0
                             relaxed_iters = -1
